@@ -99,6 +99,9 @@ UNIT = {
                 'r is Ok && old(self).cur().action == Action::Ignore ==> final(self).cur().action == Action::Ignore',
                 'r is Ok && !(old(self).cur().action is Command) && option != EnterSubshellOption::Ignore ==> final(self).cur() == old(self).cur()',
                 'r is Ok && option == EnterSubshellOption::Ignore ==> final(self).cur().action == Action::Ignore',
+                # ... and only a signal that WAS ignored on entry carries that mark afterwards: a signal the subshell itself
+                # starts to ignore (asynchronous list) can still be trapped in it, whatever was known about it before
+                'r is Ok && option == EnterSubshellOption::Ignore && final(self).cur().origin == Origin::Inherited ==> old(self).cur().action == Action::Ignore && old(self).cur().origin == Origin::Inherited',
                 # "a signal that was ignored on entry can be neither trapped nor reset": the mark of an inherited ignore survives
                 'r is Ok && old(self).cur().action == Action::Ignore && old(self).cur().origin == Origin::Inherited ==> final(self).cur().action == Action::Ignore && final(self).cur().origin == Origin::Inherited',
                 'r is Ok ==> final(self).internal() == (if option == EnterSubshellOption::KeepInternalDisposition { old(self).internal() } else { Disposition::Default })',
